@@ -72,6 +72,17 @@ def cells(fns: List[str]) -> List[Dict[str, Any]]:
             if f == "pow":
                 C.append({"id": "pow:int_base_exponents", "fn": f, "expr": "(pow(j.nTrk() + 1, 2.0) / 8 + pow(j.hits().Count() + 1, 3) / 16 + pow(j.nTrk() + 1, 2) * 0.5)"})
                 C.append({"id": "pow:large_int_base", "fn": f, "expr": "pow(j.nTrk() * 10000 + 50000, 2)"})
+    for f in fns:
+        if f in ("nan", "remquo"):
+            continue
+        lit = f"{f}({', '.join(LIT.get(f, ['2.5']))})"
+        # a call on literals only, then divided / taken modulo by an integer: still floating arithmetic
+        C.append({"id": f"{f}:literal_div", "fn": f, "expr": f"({lit} / 2 + {lit} / (j.hits().Count() + 2))"})
+    for f in ("pow", "atan2", "fmod", "hypot", "sqrt", "fabs", "floor", "exp", "log", "fmax", "copysign", "ldexp"):
+        # a float-declared argument (24 bits) beside an int / a double: the function computes in double, the result is a double
+        fa = {"pow": ["j.width() * 1000.0 + 0.567", "2"], "atan2": ["j.width()", "3"], "fmod": ["j.width() * 1000.0", "7"], "hypot": ["j.width() * 1000.0", "j.pt()"], "fmax": ["j.width()", "j.pt()"],
+              "copysign": ["j.width()", "j.eta()"], "ldexp": ["j.width()", "20"], "log": ["(j.width() + 1.0)"], "exp": ["(j.width() / 16.0)"]}.get(f, ["j.width() * 1000.0 + 0.567"])
+        C.append({"id": f"{f}:float_arg", "fn": f, "expr": f"{f}({', '.join(fa)})"})
     # exact IEEE results that only survive if the job is built without value-changing optimisation (the build description is
     # part of the package: its compiler options are honoured by the harness)
     C.append({"id": "ieee:sqrt_squared", "fn": "sqrt", "expr": f"(sqrt({POS}) * sqrt({POS}) - {POS})"})
